@@ -1236,6 +1236,20 @@ func (e *Engine) phiFacts(v ssa.Value, seen map[ssa.Value]bool, out *[]Fact) {
 	}
 	seen[v] = true
 	switch x := v.(type) {
+	case *ssa.Call:
+		// strings.Index/LastIndex(s, sep): -1 <= result <= len(s) - len(sep)
+		if callee := x.Call.StaticCallee(); callee != nil && callee.Pkg != nil && callee.Pkg.Pkg.Path() == "strings" && callee.Signature.Recv() == nil && len(x.Call.Args) == 2 {
+			switch callee.Name() {
+			case "Index", "LastIndex", "IndexByte", "LastIndexByte", "IndexRune", "IndexAny", "LastIndexAny":
+				self := Term{Kind: 2, K: e.keyOf(x)}
+				lt := Term{Kind: 1, K: e.keyOf(x.Call.Args[0])}
+				n := int64(1)
+				if c, ok := x.Call.Args[1].(*ssa.Const); ok && c.Value != nil && c.Value.Kind() == constant.String {
+					n = int64(len(constant.StringVal(c.Value)))
+				}
+				*out = append(*out, Fact{Kind: "le", A: self, B: lt, C: -n}, Fact{Kind: "le", A: Term{}, B: self, C: 1})
+			}
+		}
 	case *ssa.BinOp:
 		if x.Op == token.ADD || x.Op == token.SUB {
 			e.phiFacts(x.X, seen, out)
